@@ -81,6 +81,9 @@ func (g *vfGen) genC04() {
 		[]byte("a,b,c\n1,2,3\n4,5,6\n"), []byte("a,b\n1,2\n3,4\n"), []byte("a\tb\n1\t2\n"), []byte("a,b,c,d,e,f,g\n1,2,3,4,5,6,7\n1,2,3,4,5,6,7\n"),
 		[]byte("{\"a\":1}\n{\"b\":2}\n"), g.textBytes(6000), g.bytes(5000), {}, []byte("<html><meta charset=latin1>"), []byte("PK\x03\x04"),
 		[]byte(`{"asset":{"version":"2.0"}}`), []byte("\"q,u\"\"o\",x\n1,2\n3,4\n"),
+		// scans that stop early: a ragged line followed by many more lines (tab and comma separated)
+		[]byte("a\tb\tc\n1\t2\t3\n4\t5\n" + strings.Repeat("6\t7\t8\n", 40)), []byte("a,b,c\n1,2,3\n4,5\n" + strings.Repeat("6,7,8\n", 40)),
+		[]byte("h1\th2\nx\ty\tz\n" + strings.Repeat("tail\tof\tthe\tfile\n", 30)), []byte("1,2,3\n4,5,6\n7,8,9\n"), []byte("x\ty\n1\t2\n3\t4\n"),
 	}
 	for _, c := range vfCorpus() {
 		if len(c) <= 8192 {
@@ -94,6 +97,19 @@ func (g *vfGen) genC04() {
 			items = append(items, vfHex(pool[g.rng.Intn(len(pool))]))
 		}
 		g.emit(fmt.Sprintf("dhist %d %s", []int{0, 3072, 16, 64}[g.rng.Intn(4)], strings.Join(items, ",")))
+	}
+	// directed: an aborted separated-values scan directly before a clean table
+	{
+		rag := [][]byte{[]byte("a\tb\tc\n1\t2\t3\n4\t5\n" + strings.Repeat("6\t7\t8\n", 40)), []byte("a,b,c\n1,2,3\n4,5\n" + strings.Repeat("6,7,8\n", 40)),
+			[]byte("h1\th2\nx\ty\tz\n" + strings.Repeat("tail\tof\tthe\tfile\n", 30))}
+		clean := [][]byte{[]byte("1,2,3\n4,5,6\n7,8,9\n"), []byte("x\ty\n1\t2\n3\t4\n"), []byte("a,b\n1,2\n3,4\n")}
+		for _, r := range rag {
+			for _, c := range clean {
+				for _, l := range []int{0, 3072} {
+					g.emit(fmt.Sprintf("dhist %d %s,%s,%s,%s,%s", l, vfHex(c), vfHex(r), vfHex(c), vfHex(r), vfHex(c)))
+				}
+			}
+		}
 	}
 	// inputs that differ only beyond the limit
 	for i := 0; i < g.pick(200, 5000); i++ {
